@@ -2,6 +2,7 @@ import StepModel.GenCxxFlags
 /-! Which attributes end up flagged `_derive` / `_redefAttr`: a specification for single-inheritance instances
 (where the generated code does what Part 21 intends, up to one quirk) and the proof that the flag model meets it. -/
 namespace StepModel.GenCxx
+open StepModel.Generated
 
 /-! ## single-inheritance chains -/
 
@@ -20,10 +21,12 @@ theorem IsChain.last {s : Schema} {n : String} {c : List Entity} (h : IsChain s 
 /-! ## `populateAttrList` on a chain is one left fold over all attributes of the chain -/
 
 /-- one attribute in `populateAttrList` when the search starts at index 0 -/
-def popStep (acc : List OA) (p : String × Attr) : List OA :=
+def popStepM (m : Bool) (acc : List OA) (p : String × Attr) : List OA :=
   match markFirst p.2.name acc with
-  | some acc' => acc'
+  | some acc' => if marksDerivedM m p.2 then acc' else acc
   | none => acc ++ [{ name := p.2.name, creator := p.1, deriver := p.2.kind == .derived }]
+
+def popStep (acc : List OA) (p : String × Attr) : List OA := popStepM explicitRedeclMarksDerived acc p
 
 /-- all attributes of a chain in the order `populateAttrList` meets them, with the declaring entity -/
 def flatAttrs (c : List Entity) : List (String × Attr) := c.flatMap (fun e => e.attrs.map (fun a => (e.name, a)))
@@ -38,14 +41,14 @@ theorem populate_succ (s : Schema) (f : Nat) (n : String) (l : List OA) :
       | some e =>
         e.attrs.foldl (fun acc a =>
           match markFrom l.length a.name acc with
-          | some acc' => acc'
+          | some acc' => if marksDerived a then acc' else acc
           | none => acc ++ [{ name := a.name, creator := n, deriver := a.kind == .derived }])
           (e.supers.foldl (fun acc sup => populate s f sup acc) l) := rfl
 
 theorem attrs_fold_eq (n : String) (attrs : List Attr) (acc : List OA) :
     attrs.foldl (fun acc a =>
         match markFrom ([] : List OA).length a.name acc with
-        | some acc' => acc'
+        | some acc' => if marksDerived a then acc' else acc
         | none => acc ++ [{ name := a.name, creator := n, deriver := a.kind == .derived }]) acc =
       (attrs.map (fun a => (n, a))).foldl popStep acc := by
   induction attrs generalizing acc with
@@ -54,7 +57,8 @@ theorem attrs_fold_eq (n : String) (attrs : List Attr) (acc : List OA) :
     simp only [List.foldl_cons, List.map_cons]
     rw [← ih]
     congr 1
-    simp only [List.length_nil, markFrom_zero, popStep]
+    simp only [List.length_nil, markFrom_zero, popStep, popStepM, marksDerived]
+    rfl
 
 theorem populate_chain {s : Schema} {n : String} {c : List Entity} (h : IsChain s n c) :
     ∀ f, c.length ≤ f → populate s f n [] = (flatAttrs c).foldl popStep [] := by
@@ -133,8 +137,9 @@ theorem markNamed_deriver (nm : String) (o : OA) : (markNamed nm o).deriver = (o
 def newOA (p : String × Attr) : OA := { name := p.2.name, creator := p.1, deriver := p.2.kind == .derived }
 
 theorem popStep_eq (acc : List OA) (p : String × Attr) (hn : (names acc).Nodup) :
-    popStep acc p = if p.2.name ∈ names acc then acc.map (markNamed p.2.name) else acc ++ [newOA p] := by
-  unfold popStep
+    popStep acc p = if p.2.name ∈ names acc then (if marksDerived p.2 then acc.map (markNamed p.2.name) else acc)
+      else acc ++ [newOA p] := by
+  unfold popStep popStepM
   by_cases h : p.2.name ∈ names acc
   · rw [markFirst_some hn h]; simp only [h, ↓reduceIte]; rfl
   · rw [markFirst_none.mpr h]; simp only [h, ↓reduceIte]; rfl
@@ -146,8 +151,12 @@ theorem popStep_names (acc : List OA) (p : String × Attr) (hn : (names acc).Nod
     (names (popStep acc p)).Nodup ∧ ∀ x, x ∈ names (popStep acc p) ↔ x ∈ names acc ∨ x = p.2.name := by
   rw [popStep_eq acc p hn]
   by_cases h : p.2.name ∈ names acc
-  · simp only [h, ↓reduceIte, names_map_mark]
-    exact ⟨hn, fun x => ⟨Or.inl, fun hx => hx.elim id (fun e => e ▸ h)⟩⟩
+  · simp only [h, ↓reduceIte]
+    by_cases hm : marksDerived p.2 = true
+    · simp only [hm, ↓reduceIte, names_map_mark]
+      exact ⟨hn, fun x => ⟨Or.inl, fun hx => hx.elim id (fun e => e ▸ h)⟩⟩
+    · simp only [hm]
+      exact ⟨hn, fun x => ⟨Or.inl, fun hx => hx.elim id (fun e => e ▸ h)⟩⟩
   · simp only [h, ↓reduceIte]
     constructor
     · simp only [names, List.map_append, List.map_cons, List.map_nil]
@@ -181,21 +190,26 @@ theorem fold_names (xs : List (String × Attr)) (acc : List OA) (hn : (names acc
     attribute carries its name -/
 theorem fold_old (xs : List (String × Attr)) (acc : List OA) (hn : (names acc).Nodup) (o : OA) (ho : o ∈ acc) :
     ∃ o' ∈ xs.foldl popStep acc, o'.name = o.name ∧ o'.creator = o.creator ∧
-      o'.deriver = (o.deriver || xs.any (fun p => p.2.name == o.name)) := by
+      o'.deriver = (o.deriver || xs.any (fun p => p.2.name == o.name && marksDerived p.2)) := by
   induction xs generalizing acc o with
   | nil => exact ⟨o, ho, rfl, rfl, by simp⟩
   | cons p ps ih =>
     simp only [List.foldl_cons]
     have h1 := (popStep_names acc p hn).1
     have hmem : ∃ o1 ∈ popStep acc p, o1.name = o.name ∧ o1.creator = o.creator ∧
-        o1.deriver = (o.deriver || p.2.name == o.name) := by
+        o1.deriver = (o.deriver || (p.2.name == o.name && marksDerived p.2)) := by
       rw [popStep_eq acc p hn]
       by_cases h : p.2.name ∈ names acc
       · simp only [h, ↓reduceIte]
-        refine ⟨markNamed p.2.name o, List.mem_map_of_mem ho, markNamed_name _ _, markNamed_creator _ _, ?_⟩
-        rw [markNamed_deriver]
-        congr 1
-        exact BEq.comm
+        by_cases hm : marksDerived p.2 = true
+        · simp only [hm, ↓reduceIte, Bool.and_true]
+          refine ⟨markNamed p.2.name o, List.mem_map_of_mem ho, markNamed_name _ _, markNamed_creator _ _, ?_⟩
+          rw [markNamed_deriver]
+          congr 1
+          exact BEq.comm
+        · have hm' : marksDerived p.2 = false := by simpa using hm
+          simp only [hm', Bool.false_eq_true, ↓reduceIte, Bool.and_false, Bool.or_false]
+          exact ⟨o, ho, rfl, rfl, rfl⟩
       · simp only [h, ↓reduceIte]
         have hne : p.2.name ≠ o.name := by
           intro e; apply h; rw [e]; exact List.mem_map_of_mem ho
@@ -209,7 +223,7 @@ theorem fold_old (xs : List (String × Attr)) (acc : List OA) (hn : (names acc).
 theorem fold_new (pre post : List (String × Attr)) (cr : String) (a : Attr) (acc : List OA) (hn : (names acc).Nodup)
     (h1 : a.name ∉ names acc) (h2 : ∀ p ∈ pre, p.2.name ≠ a.name) :
     ∃ o ∈ (pre ++ (cr, a) :: post).foldl popStep acc, o.name = a.name ∧ o.creator = cr ∧
-      o.deriver = (a.kind == .derived || post.any (fun p => p.2.name == a.name)) := by
+      o.deriver = (a.kind == .derived || post.any (fun p => p.2.name == a.name && marksDerived p.2)) := by
   rw [List.foldl_append, List.foldl_cons]
   obtain ⟨f1, f2⟩ := fold_names pre acc hn
   have hnot : a.name ∉ names (pre.foldl popStep acc) := by
@@ -276,7 +290,7 @@ theorem dedupOA_id (acc l : List OA) (hn : (names (acc ++ l)).Nodup) : dedupOA a
 /-- where a `MakeDerived( x, cr )` call comes from, in terms of the attribute sequence of the chain -/
 def DerivedCall (xs : List (String × Attr)) (x cr : String) : Prop :=
   ∃ pre a post, xs = pre ++ (cr, a) :: post ∧ a.name = x ∧ (∀ p ∈ pre, p.2.name ≠ x) ∧
-    (a.kind = .derived ∨ ∃ p ∈ post, p.2.name = x)
+    (a.kind = .derived ∨ ∃ p ∈ post, p.2.name = x ∧ marksDerived p.2 = true)
 
 theorem derivedCalls_chain {s : Schema} {n : String} {c : List Entity} (h : IsChain s n c)
     (hf : c.length ≤ fuelOf s) (x cr : String) :
@@ -303,20 +317,20 @@ theorem derivedCalls_chain {s : Schema} {n : String} {c : List Entity} (h : IsCh
       refine ⟨pre, a, post, ?_, by rw [hq, hx], fun p hp => by rw [← hx]; exact hpre p hp, ?_⟩
       · rw [e, ← hc, c']
       · rw [d'] at hd
-        simp only [Bool.or_eq_true, beq_iff_eq, List.any_eq_true] at hd
-        rcases hd with hk | ⟨p, hp, hpn⟩
+        simp only [Bool.or_eq_true, beq_iff_eq, List.any_eq_true, Bool.and_eq_true] at hd
+        rcases hd with hk | ⟨p, hp, hpn, hpm⟩
         · exact Or.inl hk
-        · exact Or.inr ⟨p, hp, by rw [hpn, hq, hx]⟩
+        · exact Or.inr ⟨p, hp, by rw [hpn, hq, hx], hpm⟩
   · rintro ⟨pre, a, post, e, hax, hpre, hk⟩
     obtain ⟨o, ho, n', c', d'⟩ := fold_new pre post cr a [] (by simp [names]) (by simp [names])
       (fun p hp => by rw [hax]; exact hpre p hp)
     rw [← e] at ho
     refine ⟨o, ⟨ho, ?_⟩, by rw [n', hax], c'⟩
     rw [d']
-    simp only [Bool.or_eq_true, beq_iff_eq, List.any_eq_true]
-    rcases hk with hk | ⟨p, hp, hpn⟩
+    simp only [Bool.or_eq_true, beq_iff_eq, List.any_eq_true, Bool.and_eq_true]
+    rcases hk with hk | ⟨p, hp, hpn, hpm⟩
     · exact Or.inl hk
-    · exact Or.inr ⟨p, hp, by rw [hpn, hax]⟩
+    · exact Or.inr ⟨p, hp, by rw [hpn, hax], hpm⟩
 
 /-! ## the head instance of a chain: which objects get `_derive` -/
 
@@ -580,9 +594,9 @@ theorem derivedCall_mono {xs ys : List (String × Attr)} {x cr : String} (h : De
     DerivedCall (xs ++ ys) x cr := by
   obtain ⟨pre, a, post, e, ha, hpre, hk⟩ := h
   refine ⟨pre, a, post ++ ys, by rw [e]; simp, ha, hpre, ?_⟩
-  rcases hk with hk | ⟨p, hp, hx⟩
+  rcases hk with hk | ⟨p, hp, hx, hm⟩
   · exact Or.inl hk
-  · exact Or.inr ⟨p, List.mem_append.mpr (Or.inl hp), hx⟩
+  · exact Or.inr ⟨p, List.mem_append.mpr (Or.inl hp), hx, hm⟩
 
 /-- descriptors along the chain are told apart by (owner, registered name) -/
 def KeysNodup (c : List Entity) : Prop := ((c.flatMap ownSAs).map keyOf).Nodup
